@@ -456,9 +456,95 @@ def ustar_direction_case(rng, tries=400):
     return None
 
 
+def unbounded_cases():
+    """fixed, every run: a design that has never been sampled has a FLAT (improper) prior — infinite posterior
+    variance, displayed rectangle (−∞, +∞)^m, which trivially contains its truth.  Designs b and c start with
+    overlapping rectangles (c's pessimistic corner above b's: b is outside the pessimistic set); all three are
+    mutually ε-isolated, so all three must end in P.  Facet values of an unbounded rectangle are ±∞ or NaN
+    (∞·0): an undefined comparison must never count as a domination certificate."""
+    F = [[0.20, 0.95], [0.69, 0.60], [0.56, 0.74]]
+    first = [[0.0, 0.0], [0.60, 0.60], [0.65, 0.65]]
+    out = []
+    for alg in ALGS:
+        for perm in ([0, 1, 2], [2, 0, 1], [1, 2, 0]):
+            inv = [perm.index(i) for i in range(3)]          # position of original design i
+            Y = [F[perm[k]] for k in range(3)]
+            m0 = [first[perm[k]] for k in range(3)]
+            hw0 = [[None, None] if perm[k] == 0 else [0.1, 0.1] for k in range(3)]
+            out.append({"kind": "unbounded", "alg": alg, "cone": "orthant2", "shape": "unbounded", "Y": Y, "eps": 0.05,
+                        "delta": 0.1, "noise_var": 0.01, "conf": 16, "batch": 1, "perm": perm,
+                        "script": [{"means": m0, "hw": hw0}, {"means": Y, "hw": [[2.0 ** -10] * 2] * 3}],
+                        "adv": {"mode": "lift-dominated", "frac": 0.5, "sd0": [[2.0 ** -8] * 2] * 3,
+                                "shrink": [0.5] * 3, "seed": 1}})
+    return out
+
+
+def run_unbounded(ctx, case):
+    """whole real run under a scripted posterior with infinite variances; premise (truth inside every displayed
+    rectangle, an infinite bound exported as ±2^80) and conclusion checked exactly as in `run_case`"""
+    name = case["alg"]
+    ctx.count("alg_" + name)
+    ctx.count("shape_unbounded")
+    W = c01.cone_W(case)
+    Y = np.array(case["Y"], dtype=float)
+    n, m = Y.shape
+    try:
+        alg, _adv = c01.build_algorithm(case)
+    except Exception as e:
+        ctx.violation(f"crash:{name}:init:" + core.exc_key(e), f"{name} constructor raised {e!r}", case, kind="R")
+        ctx.case_done(case, False)
+        return
+    BIG = 2.0 ** 80
+    t = 0
+    while len(alg.S) > 0 and t < 40:
+        active = c01.refreshed_before(alg)
+        scale = c01.next_scale(alg)
+        sc = case["script"][min(t, len(case["script"]) - 1)]
+        means = np.array(sc["means"], dtype=float)
+        var = np.array([[np.inf if h is None else (h / scale) ** 2 for h in row] for row in sc["hw"]], dtype=float)
+        alg.model._install(means, var)
+        try:
+            alg.run_one_step()
+        except Exception as e:
+            ctx.violation(f"crash:{name}:" + core.exc_key(e), f"{name}.run_one_step raised with an unbounded displayed "
+                          f"rectangle: {e!r}", case, kind="R", detail={"round": t})
+            ctx.case_done(case, False)
+            return
+        t += 1
+        for i in active:
+            r = alg.design_space.confidence_regions[i]
+            lo = np.clip(np.asarray(r.lower, dtype=float).reshape(-1), -BIG, BIG)
+            hi = np.clip(np.asarray(r.upper, dtype=float).reshape(-1), -BIG, BIG)
+            if np.isnan(lo).any() or np.isnan(hi).any() or ctx.ask("box", core.qvec(lo), core.qvec(hi), core.qvec(Y[i])) != "1":
+                ctx.count("premise_failed_" + name)
+                ctx.case_done(case, False)
+                return
+    if len(alg.S) > 0:
+        ctx.count("status_round_cap")
+        ctx.case_done(case, False)
+        return
+    P = sorted(int(i) for i in alg.P)
+    s = true_slack(alg, W)
+    ans = ctx.ask("final", core.qmat(W), core.qvec(s), core.qmat(Y), core.nats(P)).split(" ")
+    iso = core.parse_nats(ans[2])
+    detail = {"P": P, "rounds": t, "isolated": iso, "slack": [float(x) for x in s]}
+    if ans[0] != "1":
+        lost = [i for i in iso if i not in P]
+        ctx.violation(f"isolated-lost:{name}", f"{name}: the truth stayed inside every displayed rectangle (one of them "
+                      f"unbounded in the first round) and the run terminated, but the ε-isolated design(s) {lost} are "
+                      "not in P", case, kind="R", detail=detail)
+    if ans[1] != "1":
+        ctx.violation(f"P-internally-dominated:{name}", f"{name}: a member of P is dominated by another member by more "
+                      "than the ε-slack", case, kind="R", detail=detail)
+    ctx.count("unbounded_terminated")
+    ctx.case_done(case, True, canon=[name, case["perm"]])
+
+
 def gen(ctx):
     rng = ctx.rng
     fam = c01.family
+    if ctx.worker == 0:
+        yield from unbounded_cases()
     # structured families (fixed sub-streams: identical in every quick run, whatever VERIF_SEED)
     yield from fam(ctx, "offset", 12, 240, lambda r, k: offset_case(r, ctx.tier, k))
     yield from fam(ctx, "offaxis", 8, 160, lambda r, k: offaxis_case(r))
@@ -540,6 +626,8 @@ def decided_round(ctx, case, alg, adv, before, t, fstate):
 
 
 def run_case(ctx, case):
+    if case.get("kind") == "unbounded":
+        return run_unbounded(ctx, case)
     name = case["alg"]
     ctx.count("alg_" + name)
     ctx.count("shape_" + case.get("shape", "?"))
